@@ -1,5 +1,6 @@
 import MesonModel.Cargo.Model
 import MesonModel.Cargo.CacheModel
+import MesonModel.Cargo.CfgTableModel
 import MesonModel.Generated.CargoCache
 import Driver.Proto
 /- driver commands of area `cargo` (C20) -/
@@ -94,6 +95,31 @@ def runHist (init : List Char) (ops : List String) : String :=
   let (outs, o) := go (Cache.fresh init) ops []
   ";".intercalate (outs ++ ["V:" ++ encodeStr o.version])
 
+def readKey (w : String) : CfgTable.Key :=
+  match w.splitOn "." with
+  | [m, s] => (m == "1", s.toNat?.getD 0)
+  | _ => (false, 0)
+
+def showTable (t : Cfgs) : String :=
+  ",".intercalate (t.map (fun kv => encodeStr kv.1 ++ "=" ++ encodeStr kv.2))
+
+/-- a history of `_get_cfgs` calls on one interpreter: host / build compiler cfg lines, the
+`rust_args` of every key (`m.sub:arg,arg;…`), the calls (`m.sub;…`) -/
+def runCfgs (host build : List (List Char)) (args calls : String) : String :=
+  let tbl : List (CfgTable.Key × List (List Char)) :=
+    if args.trimAscii.isEmpty then [] else
+    (args.splitOn ";").map (fun e =>
+      match e.splitOn ":" with
+      | [k, v] => (readKey k, decodeStrList v)
+      | _ => ((false, 0), []))
+  let rustArgs : CfgTable.Key → List (List Char) := fun k => (tbl.lookup k).getD []
+  let copies := !(MesonModel.Generated.CargoCache.aliasedMutations.any (fun p => p.1 == "_get_cfgs"))
+  let ks := if calls.trimAscii.isEmpty then [] else (calls.splitOn ";").map readKey
+  let (outs, st) := ks.foldl (fun (acc : List String × CfgTable.State) k =>
+      let r := CfgTable.getCfgs copies rustArgs acc.2 k
+      (showTable r.2 :: acc.1, r.1)) ([], ⟨host, build, []⟩)
+  ";".intercalate (outs.reverse ++ ["H:" ++ encodeStrList st.baseHost, "B:" ++ encodeStrList st.baseBuild])
+
 def handle (cmd : String) (fs : List String) : String :=
   match cmd, fs with
   | "split", [r] =>
@@ -104,6 +130,7 @@ def handle (cmd : String) (fs : List String) : String :=
     "".intercalate ([vlt x y, vgt x y, vle x y, vge x y, veq x y, vne x y].map boolStr)
   | "match", [r, v] => boolStr (cargoParse (decodeStr r) (decodeStr v))
   | "api", [r] => showApi (api (decodeStr r))
+  | "cfgs", [h, b, args, calls] => runCfgs (decodeStrList h) (decodeStrList b) args calls
   | "hist", [r, ops] =>
     runHist (decodeStr r) (if ops.trimAscii.isEmpty then [] else ops.splitOn ",")
   | "lex", [r] =>
